@@ -46,8 +46,8 @@ UNITS2 = {
                  'list_iterator_remove', 'list_contains', 'list_remove', 'list_insert_sorted'], 3,
                 {'inmem': ['list_node', 'list_node_t', 'list_t', 'list_iterator_t'], 'recursive_loops': True, 'pure_calls': ['nodecmp']}),
     # fibre.c: the comparator the scheduler hands to list_insert_sorted for its timer queue (fibre_t in memory)
-    'FibreSeq': (os.path.join(vlib.REPO, 'librfn/fibre.c'), ['duetime_cmp'], 1,
-                 {'inmem': ['fibre', 'fibre_t', 'list_node', 'list_node_t']}),
+    'FibreSeq': (os.path.join(vlib.VERIF, 'harness/wrap_fibre.c'), ['duetime_cmp'], 1,
+                 {'inmem': ['fibre', 'fibre_t', 'list_node', 'list_node_t'], 'flags': ['-I' + vlib.REPO]}),
     # one iteration of the POSIX main loop; the clock, the scheduling pass and the sleep are the environment
     'MainLoopSeq': (os.path.join(vlib.VERIF, 'harness/wrap_mainloop.c'), ['fibre_scheduler_main_loop'], 1,
                     {'externs': ['time_now', 'fibre_scheduler_next', 'usleep'], 'flags': ['-I' + vlib.REPO]}),
